@@ -158,7 +158,15 @@ func diffRejectedCheck(id string, panicsAreViolations bool, withInvokes bool) fu
 					return &Failure{"no-trace", fmt.Sprintf("without rejected op %d, op %d panics: %v", r.idx, i, tb.Ops[i].PanicVal)}
 				}
 			}
-			if d := CompareTraces(tr, tb, CmpOpts{Class: true, Executed: true, Prov: true, Info: true, Text: true, IgnoreOps: map[int]bool{r.idx: true}}); d != "" {
+			// ops that are given the rejected call's own error
+			// (Visualize(VisualizeError(err))) have no counterpart in the twin
+			ignore := map[int]bool{r.idx: true}
+			for j, o := range c.Ops {
+				if o.K == OpVisualize && o.ErrOf != nil && *o.ErrOf == r.idx {
+					ignore[j] = true
+				}
+			}
+			if d := CompareTraces(tr, tb, CmpOpts{Class: true, Executed: true, Prov: true, Info: true, Text: true, IgnoreOps: ignore}); d != "" {
 				return &Failure{"no-trace", fmt.Sprintf("rejected op %d (%s, cause %s: %v) left a trace: with vs without it: %s", r.idx, c.Ops[r.idx].Short(), r.cause, tr.Ops[r.idx].Err, d)}
 			}
 		}
